@@ -50,25 +50,44 @@ def main(argv: list[str]) -> int:
         prep = mod.prepare(sc)                       # builds the encoding from the scratch copy
         if args.warm:
             import subprocess
-            p = subprocess.run(["cargo", "kani", "-Z", "stubbing", "--only-codegen", "--target-dir", str(prep["target_dir"])],
-                               cwd=prep["pkg_dir"], env=core.env_offline(), stdout=subprocess.PIPE, stderr=subprocess.STDOUT, text=True)
-            log(p.stdout[-1500:])
-            log(f"== {pid}: warm-up build exit {p.returncode}")
-            return 0 if p.returncode == 0 else EXIT_INCONCLUSIVE
-        specs = select(prep["specs"], args.tier, args.harness)
+            rc = 0
+            for g in [prep] + list(prep.get("extra_groups") or []):
+                p = subprocess.run(["cargo", "kani", "-Z", "stubbing", "--only-codegen", "--target-dir", str(g["target_dir"])],
+                                   cwd=g["pkg_dir"], env=core.env_offline(), stdout=subprocess.PIPE, stderr=subprocess.STDOUT, text=True)
+                log(p.stdout[-1500:])
+                log(f"== {pid}: warm-up build exit {p.returncode}")
+                rc = rc or p.returncode
+            return 0 if rc == 0 else EXIT_INCONCLUSIVE
+        # a property may be decided by several encodings ("groups": own package, target dir, solver
+        # arguments); the first one is `prep` itself, further ones are listed under prep["extra_groups"]
+        groups = [prep] + list(prep.get("extra_groups") or [])
         jobs = args.jobs or prep.get("jobs", {}).get(args.tier, 8)
         log(f"   encoding regenerated from {core.REPO} in {sc.sync_s:.1f}s; rewrites: {json.dumps(prep.get('rewrites', {}))}")
-        log(f"   {len(specs)} harnesses, {jobs} in parallel")
         log_dir = CACHE / "logs" / pid
-        kani_args = list(prep.get("kani_args") or []) + os.environ.get("VERIF_KANI_ARGS", "").split()
-        prep["kani_args"] = kani_args
-        results = run_many(prep["pkg_dir"], prep["target_dir"], specs, log_dir, jobs, kani_args)
+        extra = os.environ.get("VERIF_KANI_ARGS", "").split()
+
+        def run_group(gi_g):
+            gi, g = gi_g
+            specs = select(g["specs"], args.tier, args.harness)
+            for s in specs:
+                s.group = gi
+            g["kani_args"] = list(g.get("kani_args") or []) + extra
+            log(f"   group {gi}: {len(specs)} harnesses, {jobs} in parallel")
+            return run_many(g["pkg_dir"], g["target_dir"], specs, log_dir, jobs, g["kani_args"])
+
+        from concurrent.futures import ThreadPoolExecutor
+        with ThreadPoolExecutor(max_workers=len(groups)) as ex:
+            results = [r for rs in ex.map(run_group, enumerate(groups)) for r in rs]
 
         violations, known_hits, inconclusive = [], [], []
         known = [k for k in load_known_findings().get("findings", []) if k.get("property") == pid]
         for r in results:
             if r.status == "failure":
-                out = mod.confirm(sc, prep, r, log_dir)   # replay against the real code
+                gi = getattr(r.spec, "group", 0)
+                if gi == 0:
+                    out = mod.confirm(sc, prep, r, log_dir)   # replay against the real code
+                else:
+                    out = groups[gi]["confirm"](sc, groups[gi], r, log_dir)
                 # out: {"reproduced": bool|None, "replay": path, "role": str, "detail": str}
                 if out.get("reproduced") is True:
                     k = next((k for k in known if k.get("role") == out.get("role")), None)
